@@ -40,12 +40,75 @@ def run(ctx):
     ctx.rule("C11.cv", "waits: lock owns the matching mutex, predicate-form, predicate reads the paired flag only", floor=4)
     for cv, mtx, flag in PAIRS:
         ctx.step(check_waits, ctx, "C11.cv", CLS, cv, mtx, [flag])
+    ctx.step(entries, ctx)
     ctx.step(wake, ctx)
     ctx.step(who, ctx)
     ctx.step(order, ctx)
     ctx.step(common.lock_order, ctx, "C11.nonest", scope_pred=lambda f: f.file.endswith("/TriggerVariable.hpp"), floor=6)
     ctx.step(common.atomic_floors, ctx, "C11.orders", [CLS], floor=10, files=["TriggerVariable.hpp"])
     ctx.step(common.raii_only, ctx, "C11.raii", ["TriggerVariable.hpp"], floor=8)
+
+
+ENTRY = {"wait": 0, "wait_for": 0, "waitActivation": 1, "wait_forActivation": 1}
+
+
+def entries(ctx):
+    """each of the four waiting operations blocks on ITS event's condition variable, with its mutex and its flag -
+    directly, or through a helper that receives the triple as arguments"""
+    from ..cv import WAITS, predicate_lambda
+    rid = "C11.cv"
+    fb, eng = ctx.fb, ctx.eng
+    seen = 0
+    for f in fb.functions(rec=CLS):
+        if f.name not in ENTRY:
+            continue
+        seen += 1
+        cv, mtx, flag = PAIRS[ENTRY[f.name]]
+        direct = [st for st in f.stmts.values() if st["k"] == "CXXMemberCallExpr" and (st.get("callee") or {}).get("name") in WAITS
+                  and (path(f, f.s(st["obj"])) or "").startswith("this.")]
+        found = False
+        for st in direct:
+            found = True
+            ok = path(f, f.s(st["obj"])) == "this." + cv
+            ctx.ob(rid, ok, f.loc(st), "%s() blocks on %s (the condition variable its event notifies)" % (f.name, cv),
+                   "" if ok else "it waits on %s: the event's notify_all never reaches this waiter" % path(f, f.s(st["obj"]))[5:],
+                   fn=f.label, inst=f.qname)
+        for call in f.stmts.values():
+            if call["k"] not in CALLS:
+                continue
+            g = fb.callee_fn(f, call)
+            if g is None or g.rec != CLS or g.id == f.id:
+                continue
+            gw = [st for st in g.stmts.values() if st["k"] == "CXXMemberCallExpr" and (st.get("callee") or {}).get("name") in WAITS
+                  and (path(g, g.s(st["obj"])) or "").startswith("p:")]
+            if not gw:
+                continue
+            amap = {"p:" + pd["name"]: path(f, f.s(a)) for pd, a in zip(g.params, call["args"])}
+            la = locks_of(eng, fb, g)
+            for st in gw:
+                found = True
+                got_cv = amap.get(path(g, g.s(st["obj"])))
+                lk = g.s(st["args"][0]) if st["args"] else None
+                v = la.state_at(g.pos_of(st)).get(la.key_of_expr(lk)) if lk is not None and g.pos_of(st) else None
+                got_mtx = amap.get(v.mutex) if v is not None and v.mutex else None
+                pl = predicate_lambda(ctx, g, st)
+                got_flags = None
+                if pl is not None:
+                    # the predicate's captures are parameters of the helper
+                    names = set()
+                    for d in pl.stmts.values():
+                        if d["k"] == "DeclRefExpr" and d["d"].get("k") in ("param", "local") and "p:" + d["d"]["name"] in amap:
+                            names.add(amap["p:" + d["d"]["name"]])
+                    got_flags = names
+                ok = got_cv == "this." + cv and got_mtx == "this." + mtx and (got_flags is None or got_flags == {"this." + flag})
+                ctx.ob(rid, ok, f.loc(call), "%s() waits through %s with its own triple (%s, %s, %s)" % (f.name, g.name, mtx, cv, flag),
+                       "" if ok else "the helper is handed (mutex=%s, cv=%s, flag=%s): the waiter is parked where its event's "
+                       "notify_all does not reach it" % (got_mtx, got_cv, sorted(got_flags) if got_flags is not None else "?"),
+                       fn=f.label, inst=f.qname)
+        if not found:
+            ctx.unknown("%s: %s: no condition-variable wait found in %s() or in a helper it calls" % (rid, f.where, f.name))
+    if seen < 4:
+        ctx.broken("TriggerVariable wait operations not all found (%d of 4)" % seen)
 
 
 def wake(ctx):
@@ -69,7 +132,7 @@ def who(ctx):
     for flag in ("triggered", "activated"):
         for f, top, op, val in flag_stores(ctx, flag):
             allowed = want.get((flag, val))
-            ok = allowed is not None and top.name in allowed and op["op"] == "store"
+            ok = allowed is not None and top.name in allowed and (op["op"] == "store" or op["name"] == "exchange")
             ctx.ob(rid, ok, f.loc(op["st"]), "%s is set to %s only in %s" % (flag, str(val).lower(),
                    "/".join(sorted(allowed)) if allowed else "a known operation"),
                    "" if ok else "%s() %s %s" % (top.name, op["name"], val), fn=top.label, inst=f.qname)
@@ -112,6 +175,15 @@ def order(ctx):
             ok = not held
             ctx.ob(rid, ok, f.loc(c), "reset() calls trigger() with no lock held", "" if ok else
                    "held: %s" % [(m, mo) for m, mo, _ in held], fn=f.label, inst=f.qname)
+        # the forced trigger comes first: trigger() does nothing on an inactive variable, so no trigger() call may be
+        # reachable after activated was cleared
+        clears = [op for op in atomic_ops(f) if atomic_field_of(f, op) == (CLS, "activated") and op["op"] in ("store", "rmw", "cas")]
+        late = [(c, op) for c in calls for op in clears
+                if f.pos_of(c) and f.pos_of(op["st"]) and f.reach_avoiding(f.pos_of(op["st"]), f.pos_of(c), [])]
+        ctx.ob(rid, not late, f.loc(late[0][0]) if late else f.where, "reset() forces the trigger before it deactivates the variable",
+               "" if not late else "trigger() is called after activated was cleared at %s: on an inactive variable it returns "
+               "false without waking anybody, so waiters blocked in wait() stay blocked" % f.loc(late[0][1]["st"]),
+               fn=f.label, inst=f.qname)
         # the forced trigger must go through triggerLock: every raise of triggered in reset's closure is under it
         ok = bool(calls) or not any(atomic_field_of(f, op) == (CLS, "triggered") and op["op"] != "load" for op in atomic_ops(f))
         ctx.ob(rid, ok, f.where, "reset() forces the trigger through trigger() (under triggerLock), not by writing the flag itself",
